@@ -246,6 +246,8 @@ func TestCheck(t *testing.T) {
 		"part 4 (HTTP world) runs the production client eth2wrap.NewMultiHTTP (multi -> lazy first-use initialisation -> go-eth2-client) with a 60 s per-node timeout against 1-3 primary and 0-2 fallback loopback HTTP nodes " +
 		"that answer with node-unique payloads, refuse connections, answer 503 to everything, answer 400/404/503 on the endpoint only, report syncing, and block their handlers on harness gates during the client's first-use initialisation or on the endpoint afterwards; " +
 		"provide-style (NodePeerCount, AttestationData), submit-style (SubmitAttestations, SubmitProposalPreparations) and Proxy (GET / POST) calls; the caller cancels / hits its deadline while nodes hang. " +
+		"The two calls with their own success predicate (NodeSyncing: isSyncStateOk, AggregateAttestation: isAggregateAttestationOk) run in all parts with per-node answers that vary in every field such a predicate could read " +
+		"(is_syncing = the class; is_optimistic, el_offline, sync_distance, head_slot vary independently / aggregate nil = the class; fork version, empty aggregation bits, validator index vary): an answer with is_syncing=false, resp. a non-nil aggregate, is a successful answer whatever the other fields say. " +
 		"Proxy() is a sixth method of parts 1-3 and two methods of part 4: GET and POST requests with 0 B, small and 64 KiB+ bodies; every scripted node reads its copy of the body fully / partially / not at all, when called or only after its gate opened " +
 		"(so the gate order decides who reads first), and a healthy node answers 200 (node id + body hash) only for exactly the request that was sent, else 400. " +
 		"non-trivial = at least 2 nodes were called and an ordering decision mattered (a gate still closed at return, fallbacks consulted, or caller cancelled); distinct = hash of the cell script")
@@ -291,6 +293,9 @@ func TestCheck(t *testing.T) {
 	r.Require("http/cancel_returned_with_handlers_still_blocked", 100)
 	r.Require("http/first_success_returned_with_other_handlers_blocked", 50)
 	r.Require("http/fallback_consulted_on_unavailability", 30)
+	r.Require("predicate/NodeSyncing/acceptable-optimistic-answer-returned", 200)
+	r.Require("predicate/AggregateAttestation/acceptable-answer-returned", 200)
+	r.Require("http/predicate/NodeSyncing/acceptable-optimistic-answer-returned", 10)
 	r.Require("proxy/cells_with_body_and_two_or_more_primaries", 1000)
 	r.Require("proxy/healthy_nodes_that_received_the_intact_request", 500)
 	r.Require("http/proxy/healthy_nodes_that_received_the_intact_request", 50)
